@@ -509,7 +509,7 @@ func runC20(ctx *Ctx) error {
 		mk("compress", "--compress", "bool", "false", []string{"true", "false"}, []string{"true", "false"})
 		mk("track", "--track", "string", "", []string{"Flag Track", "", "Spa"}, []string{"Cfg Track", "Goodwood"})
 		mk("vehicle", "--vehicle", "string", "", []string{"Flag Car", ""}, []string{"Cfg Car"})
-		mk("tags", "--tags", "tags", "", []string{"a", "a|b c"}, []string{"Me", "x|y", ""})
+		mk("tags", "--tags", "tags", "", []string{"a", "a|b c", "\"Me\"", "p,q|r"}, []string{"Me", "x|y", ""})
 		mk("note", "--note", "string", "", []string{"flag note", ""}, []string{"cfg note"})
 		mk("startdate", "--start-date", "date", "", []string{"2023-01-02", ""}, []string{"2021-06-07", ""})
 		// most runs should reach the pipeline
